@@ -7,7 +7,7 @@ LEVEL = 'exploration'
 HONEST = ('honest', 'honest-chunked', 'honest-no-cal', 'honest-extra-noncritical')
 DEVIATIONS = ('prev-id', 'id-plus-2^32', 'other-hash', 'other-level', 'status-nonzero', 'status-nonzero-with-chains', 'error-pdu', 'truncated', 'garbled',
               'bad-mac', 'other-mac-alg', 'other-key-valid-mac', 'other-pdu-version', 'inconsistent-chains', 'no-chains', 'http-500', 'transport-error',
-              'no-mac', 'no-header', 'empty-body', 'two-pdus-first-foreign')
+              'no-mac', 'no-header', 'empty-body', 'two-pdus-first-foreign', 'config-only')
 
 
 class Server:
@@ -113,7 +113,16 @@ class Server:
             kw['mac'] = False
         elif b == 'no-header':
             kw['header'] = False
-        if b == 'error-pdu':
+        if b == 'config-only':
+            # an authentic PDU that carries a configuration but not what was asked for; with several long parent URIs it is longer than the request
+            if ver == 2:
+                body = S.wrap_v2(S.AGGR_RESP_V2, [S.conf_elem('aggr', 2, max_level=17, aggr_period=400, max_req=4, parents=['ksi+tcp://parent-%d.example.org:3332/%s' % (k, 'p' * rng.choice([1, 40, 200])) for k in range(rng.choice([0, 1, 4, 9]))])], self.key, self.alg, self.login)
+            else:
+                self.behaviour = b = 'no-chains'
+                rs = None
+        if b == 'config-only':
+            pass
+        elif b == 'error-pdu':
             body = S.error_pdu('aggr', ver, self.key, status=rng.choice([0x101, 0x102, 0x300]), alg=self.alg, login=self.login)
         else:
             alg = getattr(self, 'alg_used', self.alg) if b == 'other-mac-alg' else self.alg
@@ -176,6 +185,7 @@ def run_worker(job, r):
     sess = net.Session(exe, env, work, responder)
     cmd = sess.cmd
     cmd('ctx 0')
+    cmd('log 0 %d' % [0, 2, 5, 0, 3][seed % 5])      # log level NONE / WARNING / DEBUG / NOTICE: the outcome of a call never depends on it
     cmd('opt 0 aggr_pdu_ver %d' % version)
     cmd('opt 0 aggr_hmac %d' % alg)
     if seed % 3 == 0:
@@ -260,6 +270,10 @@ def run_worker(job, r):
                             cmd('net_push %d %s recv=%s' % (fd, body.hex(), chunks(rng, len(body))))
                             if b in ('truncated',):
                                 cmd('net_eof %d' % fd)
+                if q.get('handle') == '1' and q.get('state') == '4' and q.get('tag') != tag:
+                    r.count('pushed_configuration_handles')      # a configuration the server sent instead of / besides a reply comes back as a handle of its own
+                    q = {'handle': '0'}
+                    continue
                 if q.get('handle') == '1':
                     break
                 if step >= 6:
